@@ -11,6 +11,7 @@ import MpirProofs.Lemmas.AliasShift
 import MpirProofs.Lemmas.AliasBits
 import MpirProofs.Lemmas.AliasRoot
 import MpirProofs.Lemmas.AliasShift2
+import MpirProofs.Lemmas.AliasGcd
 namespace Mpir.AliasMem
 open Mpir
 
@@ -145,6 +146,25 @@ example : errOf2 (logicV { reread := false } iorPlan 2 0 2 exSt3) = "ub:read of 
 -- mpz_com with `src_ptr = src->_mp_d` fetched before the realloc, dst = src, carry into a new limb
 example : errOf2 (mpz_comV { ptrAfterRealloc := false } 2 2 (ofInts [5, 6, 2 ^ 64 - 1])) = "ub:read of a freed block" := by
   decide
+
+/-! ## mpz_gcd -/
+
+/-- mpz_gcd (mpz/gcd.c), every choice of g, u, v (g = u, g = v, u = v, all equal): the result is gcd(|u|, |v|) of the
+    values before the call.  `1 ≤ ALLOC (g)` is MPIR's object invariant (the one-limb cases store `PTR (g)[0]` without
+    a realloc, :66-67). -/
+theorem mpz_gcd_ptr_spec {s : St} (h : Inv s) {g u v : Nat} (hg : g < s.nv) (hu : u < s.nv) (hv : v < s.nv)
+    (ha : 1 ≤ s.alloc g) :
+    ∃ s', mpz_gcd g u v s = .ok s' ∧ Inv s' ∧ s'.nv = s.nv ∧ s'.value g = (Int.gcd (s.value u) (s.value v) : Int) ∧
+      ∀ i, i < s.nv → i ≠ g → s'.value i = s.value i :=
+  mpz_gcd_ok h hg hu hv ha
+
+def exSt5 : St := ofInts [(2 ^ 100 + 1) * 6 * 2 ^ 70, -(2 ^ 70 + 3) * 15 * 2 ^ 70, 21, 0]
+example : look2 (mpz_gcd 1 0 1 exSt5) 2 = .ok [((2 ^ 100 + 1) * 6 * 2 ^ 70, 3, 0), (3 * 2 ^ 70, 3, 1)] := by decide +kernel
+example : look2 (mpz_gcd 2 2 1 exSt5) 3 = .ok [((2 ^ 100 + 1) * 6 * 2 ^ 70, 3, 0), (-(2 ^ 70 + 3) * 15 * 2 ^ 70, 3, 1), (3, 1, 2)] := by
+  decide +kernel
+-- gcd (0, v) with g = u = 0 held in a one-limb block: SIZ (g) is written first, then the block is reallocated and v copied
+example : look2 (mpz_gcd 3 3 1 exSt5) 4 = .ok [((2 ^ 100 + 1) * 6 * 2 ^ 70, 3, 0), (-(2 ^ 70 + 3) * 15 * 2 ^ 70, 3, 1), (21, 1, 2),
+    ((2 ^ 70 + 3) * 15 * 2 ^ 70, 3, 4)] := by decide +kernel
 
 /-! ## mpz_sqrtrem -/
 
